@@ -179,7 +179,7 @@ def run_case(case, oracle="plain"):
                         own = D.own_bytes(dev, fam, sn, R.WIDTH[cls])
                         kx = cls
                         if cls in ("Enum", "EnumH", "EnumL") and data[sid] == R.decode(
-                                cls, own, labels=getattr(sn, "_labels", None), enum_signed=True):
+                                cls, own, labels=D.labels_of(sn), enum_signed=True):
                             kx = f"{cls}:signed-lookup:{sid}"   # the code byte was looked up as a signed number
                         violations.append(viol(f"C12:{fam}:{kx}",
                                                f"{fam}/{var}/{tr} fill={case['fill']} k={k}: {sid} ({cls} @ {sn.offset}) "
@@ -216,7 +216,7 @@ def run_case(case, oracle="plain"):
                             own = dev.get_bytes(st_.offset, (w + 1) // 2)[:w]
                         if len(own) < w:
                             continue
-                        ref = R.decode(scls, own, scale=getattr(st_, "scale", None), labels=getattr(st_, "_labels", None))
+                        ref = R.decode(scls, own, scale=getattr(st_, "scale", None), labels=D.labels_of(st_))
                         got = sdata[st_.id_]
                         how = "read_settings_data()"
                         stats["values_checked"] += 1
@@ -263,7 +263,9 @@ def run_case(case, oracle="plain"):
                         sn = plain[(k * 4 + j) % len(plain)]
                         cls = type(sn).__name__
                         own = D.own_bytes(dev, fam, sn, R.WIDTH[cls])
-                        ref = R.decode(cls, own, scale=getattr(sn, "scale", None), labels=getattr(sn, "_labels", None))
+                        if cls in D.LABEL_CLASSES and D.labels_of(sn) is None:
+                            continue
+                        ref = R.decode(cls, own, scale=getattr(sn, "scale", None), labels=D.labels_of(sn))
                         try:
                             v = await inv.read_sensor(sn.id_)
                             bad = not R.same(v, ref)
@@ -303,9 +305,9 @@ def run_case(case, oracle="plain"):
                         if type(sn).__name__ == "EnumBitmap22":
                             # is it exactly the known operator-precedence defect (hi << (16 + lo))?
                             hi = R.u(D.reg_bytes(dev, fam, sn.offset, 2))
-                            lo = R.u(D.reg_bytes(dev, fam, sn._offsetL, 2))
+                            lo = R.u(D.reg_bytes(dev, fam, getattr(sn, "_offsetL", sn.offset), 2))
                             hi, lo = (0 if hi == 0xFFFF else hi), (0 if lo == 0xFFFF else lo)
-                            if data[sid] == R.decode_bitmap(hi << (16 + lo), sn._labels):
+                            if data[sid] == R.decode_bitmap(hi << (16 + lo), D.labels_of(sn) or {}):
                                 kname += ":hi<<(16+lo)"
                         if sid in alts and D.match_derived(data[sid], alts[sid][0]):
                             kname += ":" + alts[sid][1]
